@@ -182,20 +182,22 @@ def check_params(run: Run, griffe, cases: list, variants=(0, 1)):
 # ---------------------------------------------------------------------------------------------------
 def render_prog(case: dict) -> str:
     ind = "    " if case["scope"] == "class" else ""
-    lines = ["from typing import overload", ""]
+    lines = ["from typing import overload", "", "def keep(f):", "    return f", ""]
     if case["scope"] == "class":
         lines.append("class C:")
     for i, d in enumerate(case["prog"], 1):
-        n, role = d["name"], d["role"]
+        n, role, deco = d["name"], d["role"], d.get("deco", "none")
         selfarg = "self, " if case["scope"] == "class" else ""
+        above = [f"{ind}@keep"] if deco == "above" else []
+        below = [f"{ind}@keep"] if deco == "below" else []
         if role == "overload":
-            lines += [f"{ind}@overload", f"{ind}def {n}({selfarg}x{i}: int) -> int:", f'{ind}    """id={i}"""']
+            lines += [*above, f"{ind}@overload", *below, f"{ind}def {n}({selfarg}x{i}: int) -> int:", f'{ind}    """id={i}"""']
         elif role == "plain":
-            lines += [f"{ind}def {n}({selfarg}x{i}=None):", f'{ind}    """id={i}"""', f"{ind}    return x{i}"]
+            lines += [*above, f"{ind}def {n}({selfarg}x{i}=None):", f'{ind}    """id={i}"""', f"{ind}    return x{i}"]
         elif role == "property":
-            lines += [f"{ind}@property", f"{ind}def {n}({selfarg.rstrip(', ') or 'x'}):", f'{ind}    """id={i}"""', f"{ind}    return {i}"]
+            lines += [*above, f"{ind}@property", *below, f"{ind}def {n}({selfarg.rstrip(', ') or 'x'}):", f'{ind}    """id={i}"""', f"{ind}    return {i}"]
         else:
-            lines += [f"{ind}@{n}.{role}", f"{ind}def {n}({selfarg}x{i}=None):", f'{ind}    """id={i}"""', f"{ind}    return None"]
+            lines += [*above, f"{ind}@{n}.{role}", *below, f"{ind}def {n}({selfarg}x{i}=None):", f'{ind}    """id={i}"""', f"{ind}    return None"]
         lines.append("")
     return "\n".join(lines) + "\n"
 
@@ -248,7 +250,7 @@ def check_progs(run: Run, griffe, cases: list):
         src = render_prog(case)
         names = sorted(case["impl"])
         roles = [d["role"] for d in case["prog"]]
-        sig = {"part": "funcseq", "scope": case["scope"], "roles": "-".join(r[:2] for r in roles), "wf": case["wf"]}
+        sig = {"part": "funcseq", "scope": case["scope"], "roles": "-".join(r[:2] for r in roles), "decos": "-".join(d.get("deco", "none")[:1] for d in case["prog"]), "wf": case["wf"]}
         ident = {"prog": case["prog"], "scope": case["scope"]}
         run.evaluated()
         if case["wf"]:
@@ -272,7 +274,7 @@ def check_progs(run: Run, griffe, cases: list):
             continue
         if case["wf"]:
             if len(set(roles)) > 1:
-                run.nontrivial_case(("seq", case["scope"], tuple((d["name"], d["role"]) for d in case["prog"])))
+                run.nontrivial_case(("seq", case["scope"], tuple((d["name"], d["role"], d.get("deco")) for d in case["prog"])))
             run.sample({"case": ident, "griffe": real})
             if real != case["ref"]:
                 run.violation(dict(sig, clause="overloads-accessors"), f"members {real} != reference {case['ref']} for\n{src}", {"case": ident, "source": src})
